@@ -44,7 +44,7 @@ SKETCHES = ["grid", "onecore", "fourcore", "halfdisk", "wrapped", "oval", "annul
 SHAPES = ["cylinder", "semicylinder", "frustum", "frustum-mid", "elbow", "extrudedring", "revolvedring", "hemisphere",
           "revolvedshape", "revolvedshape-grid"]
 STACKS = ["extrudedstack", "revolvedstack", "transformedstack"]
-JOINTS = ["ljoint", "tjoint", "njoint"]
+JOINTS = ["ljoint", "tjoint", "njoint", "cuspcylinder"]  # (cuspcylinder: an Assembly that uses the base class' own centre)
 CURVES = ["discrete", "linear", "spline-interp", "linecurve", "circlecurve"]
 
 
@@ -244,6 +244,10 @@ def make_entity(e, cb):
         k = e["kind"]
         start, centre = o, o + fr[2] * 3
         rp = start + fr[0] * rng.uniform(0.4, 0.8)
+        if k == "cuspcylinder":
+            from classy_blocks.construct.assemblies.joints import CuspCylinder
+
+            return CuspCylinder(list(start), list(centre), list(rp), rng.uniform(0.5, 1.0), rng.uniform(0.5, 1.0)), None
         if k == "ljoint":
             return cb.LJoint(list(start), list(centre), list(rp)), None
         if k == "tjoint":
